@@ -447,6 +447,44 @@ def crash_stream(ctx, programs, sanitize=False, tag="api"):
 
 
 
+def finalizer_stream(ctx, sanitize=False):
+    """gc.collect() (and touching / resurrecting the owner) from finalisers that run INSIDE the teardown of HasTraits
+    objects, containers, trait definitions and handlers; own subprocess, PYTHONMALLOC=debug (a use of freed memory is
+    fatal, not silent)."""
+    log = os.path.join(ctx.scratch, "finalizers%s.log" % ("_asan" if sanitize else ""))
+    old = os.environ.get("PYTHONMALLOC")
+    if not sanitize:
+        os.environ["PYTHONMALLOC"] = "debug"
+    try:
+        rc, out, err = ctx.run_driver(CRASH_DRIVER, dict(finalizers=True, log=log), sanitize=sanitize, timeout=600)
+    finally:
+        if old is None:
+            os.environ.pop("PYTHONMALLOC", None)
+        else:
+            os.environ["PYTHONMALLOC"] = old
+    label = "no crash when finalisers collect garbage / touch the owner during teardown (%s)" % (
+        "clang ASan+UBSan" if sanitize else "gcc build, PYTHONMALLOC=debug")
+    lines = [l[2:] for l in (open(log).read().splitlines() if os.path.exists(log) else []) if l.startswith("F ")]
+    if rc == 0 and out is not None:
+        ctx.obligation(label, True, "%d scenarios" % (len(lines) - 1))
+        ctx.cov["evaluations"] += len(lines)
+        return
+    if rc == 124 or (rc == 1 and "Traceback" in err and "Sanitizer" not in err and "Fatal Python error" not in err
+                     and "Debug memory block" not in err):
+        ctx.obligation(label, False, err[-600:])
+        ctx.fail("harness/finalizers", "finaliser driver failed rc=%s: %s" % (rc, err[-400:]), dict(error=err[-2000:]),
+                 no_input=True)
+        return
+    at = lines[-1] if lines else "?"
+    ctx.obligation(label, False, err[-600:])
+    ctx.fail("crash/finalizer/%s" % at,
+             "the interpreter died (rc=%s%s) in finaliser scenario '%s' (a finaliser runs gc.collect() / touches its owner "
+             "while a HasTraits object, container, trait or handler is being torn down): %s" % (
+                 rc, ", sanitised build" if sanitize else ", PYTHONMALLOC=debug", at, err[-400:].replace("\n", " | ")),
+             dict(kind="finalizer", scenario=at, scenarios_run=lines, sanitized=bool(sanitize), returncode=rc,
+                  stderr_tail=err[-3000:]))
+
+
 # ----------------------------------------------------------------------------------------------
 # native stream: C fast validators / containers / delegates with fresh (mortal) objects
 # ----------------------------------------------------------------------------------------------
@@ -757,7 +795,9 @@ def run(ctx):
     if ctx.replay:
         rep_file = json.load(open(ctx.replay))
         rep = rep_file["replay"]
-        if rep.get("kind") == "native":
+        if rep.get("kind") == "finalizer":
+            finalizer_stream(ctx, sanitize=bool(rep.get("sanitized")))
+        elif rep.get("kind") == "native":
             native_stream(ctx, [rep["case"]], sanitize=bool(rep.get("sanitized")), tag="replay")
         elif rep.get("kind") == "descriptor":
             rc, out, err = ctx.run_driver(FUZZ_DRIVER, dict(family=rep["family"], seed=rep["seed"], n=rep["n"],
@@ -792,6 +832,7 @@ def run(ctx):
     npr, nops = (24, 120) if ctx.tier == "quick" else (160, 250)
     programs = [dict(index=i, seed=rnd.randrange(1 << 30), n=nops) for i in range(npr)]
     _timed(ctx, "crash", crash_stream, ctx, programs)
+    _timed(ctx, "finalizers", finalizer_stream, ctx)
     _timed(ctx, "descriptor", descriptor_stream, ctx)
     nn, nlen = (150, 25) if ctx.tier == "quick" else (1500, 40)
     ncases = native_corpus() + [dict(ops=[gen_native_op(rnd) for _ in range(rnd.randint(5, nlen))]) for _ in range(nn)]
@@ -800,6 +841,7 @@ def run(ctx):
         # the same streams on the clang ASan+UBSan build: a report or a dead process is a violation
         ctx.build_impl(sanitize=True)
         crash_stream(ctx, programs, sanitize=True)
+        finalizer_stream(ctx, sanitize=True)
         descriptor_stream(ctx, sanitize=True)
         native_stream(ctx, ncases[:300], sanitize=True, tag="native_asan")
         ctrait_stream(ctx, t3_data, have_gen, sanitize=True)
